@@ -140,6 +140,12 @@ impl Spec for C14 {
         for raw in [0u64, 1, 5, 1023] {
             fds.push(Fd::Raw(raw));
         }
+        // not pipe ends either: descriptors that equal an end of the first pipe in their low 32
+        // bits only (a descriptor is the whole of RDI)
+        if let Some(p) = m.pipes.first() {
+            fds.push(Fd::Raw(p.0 | 1 << 32));
+            fds.push(Fd::Raw(p.1 | 0xDEAD << 32));
+        }
         for raw in [1u64, 1023] {
             for rax in [0u64, 1] {
                 for n in [0u64, 3] {
